@@ -41,6 +41,20 @@ def ctor_refusals(summary):
             if g in (3, 6, 7):
                 probes.append(dict(key=ci["key"], stem=ci["stem"], cls=ci["cls"], op=v, sa=sa, pos=[],
                                    kw=[[p, base[p]] for p in ci["params"]], calls=[], expect="OpcodeException"))
+    # ATA PASS-THROUGH: every flag combination that transfers logical-sector blocks without a block size, also with zero counts
+    for ci in summary["ctors"]["ctors"]:
+        if ci.get("cls", "").startswith("ATAPassThrough") and ci["key"] in sp:
+            base = ctor_oracle.base_args(ci, sp[ci["key"]])
+            for tl in (1, 2, 3):
+                for feat in (0, 3):
+                    for cnt in (0, 5):
+                        for ex in (["n"], ["i", 0], ["i", 7]):
+                            for d in (0, 1):
+                                a = dict(base)
+                                a.update(t_length=["i", tl], byte_block=["i", 1], t_type=["i", 1], t_dir=["i", d], fetures=["i", feat],
+                                         count=["i", cnt], extra_tl=ex, blocksize=["i", 0], protocal=["i", 4], command=["i", 0xEC])
+                                probes.append(dict(key=ci["key"], stem=ci["stem"], cls=ci["cls"], op=ctor_oracle.natural_opcode(sp[ci["key"]]["len"]),
+                                                   sa=sa, pos=[], kw=[[p, a[p]] for p in ci["params"]], calls=[], expect="MissingBlocksizeException"))
     res = ctor_oracle.run_probes(probes)
     bad = []
     for p, r in zip(probes, res):
